@@ -138,3 +138,15 @@ func vSameArray(a, b []byte) bool {
 }
 func vSliceOff(a []byte) int { return 0 }
 func vLocksHeld() int        { return 0 }
+
+func vWithin(inner, outer []byte) bool {
+	if cap(inner) == 0 {
+		return len(inner) == 0
+	}
+	if cap(outer) == 0 {
+		return false
+	}
+	pi := uintptr(unsafe.Pointer(&inner[:1][0]))
+	po := uintptr(unsafe.Pointer(&outer[:1][0]))
+	return pi >= po && pi+uintptr(len(inner)) <= po+uintptr(len(outer))
+}
